@@ -50,6 +50,17 @@ func (C06) Generate(rng *rand.Rand, tier string, runIdx uint64) simkit.Plan {
 			p.Steps = append(p.Steps, g.Macro()...)
 			continue
 		}
+		if simkit.Chance(rng, 4) {
+			// a service-level check that is registered again, under the same id, for another service of its node
+			node := g.pick(u.Nodes)
+			a, b := u.Services[rng.IntN(len(u.Services))], u.Services[rng.IntN(len(u.Services))]
+			p.Steps = append(p.Steps,
+				Step{Op: "register", Node: node, Svc: a, Port: 8000},
+				Step{Op: "register", Node: node, Svc: b, Port: 8001},
+				Step{Op: "register", Node: node, SkipNode: true, Checks: []Check{{ID: "cmove", Status: g.status(), SvcID: a}}},
+				Step{Op: "register", Node: node, SkipNode: true, Checks: []Check{{ID: "cmove", Status: g.status(), SvcID: b}}})
+			continue
+		}
 		p.Steps = append(p.Steps, g.Next())
 	}
 	return p
@@ -452,6 +463,13 @@ func (C06) execute(p *Plan, r *simkit.Run) *simkit.Violation {
 				if cur.Err == "" && cur.NoIdx != t.received && t.q.Like == "IntentionMatch(src=" && strings.Contains(what, "register") {
 					// known finding C06-intention-source-match-unwatched-destination-kind (see afterCommit)
 					r.Hit("known-finding.C06-intention-source-match-unwatched-destination-kind")
+					t.received = cur.NoIdx
+					continue
+				}
+				if cur.Err == "" && cur.NoIdx != t.received && likeConnectHealth(t.q.Like) && cur.Index <= t.min && strings.HasPrefix(what, "ce.") {
+					// known finding C06-connect-health-index-slides-back: a gateway link of the service was removed
+					// and the reported index fell back to (or below) what the caller already has
+					r.Hit("known-finding.C06-connect-health-index-slides-back")
 					t.received = cur.NoIdx
 					continue
 				}
